@@ -12,7 +12,9 @@ TOKENS = ['-', '+', '*', '/', '(', ')', '{', '}', '[', ']', ';', ':', ',', '.', 
           'W', 'historically', 'H', 'once', 'O', 'since', 'S', 'next', 'X', 'prev', 'Y', 's_next', 'sX', 's_prev', 'sY',
           '==', '!==', '>=', '<=', '>', '<', '=', 'true', 'FALSE', '0', '1', '2.5', '.5', '1e3', '0x1F', '0b101', '1_000',
           '007', 'x', 'y', 'z', 'k', 'out', 'x.f', 'a/b', '$v', '//c\n', '/* c */', '\n', ' ', '\t']
-CHARS = ['#', '"', "'", '\\', '`', '~', '^', '%', '?', '\x00', '\x7f', 'é', 'φ', '≤', '∞', '퟿',
+# (the second line: characters that Python's str.strip()/isspace() treat as white space but the lexer does not)
+WS_LOOKALIKES = ['\x0b', '\x1c', '\x1d', '\x1e', '\x1f', '\x85', '\xa0', '\u2028', '\u2029', '\u3000', '\u2003', '\ufeff']
+CHARS = WS_LOOKALIKES + ['#', '"', "'", '\\', '`', '~', '^', '%', '?', '\x00', '\x7f', 'é', 'φ', '≤', '∞', '퟿',
          '\U0001f600', '​', '﻿', '§', '°']
 
 
@@ -106,7 +108,8 @@ class C14(Prop):
                 m = rng.choice(ids)
                 return t[:m.end()] + rng.choice(['.val', '.real', '.a.b', '.numer', '.x']) + t[m.end():]
         if r < 0.6:
-            i = rng.randrange(len(t) + 1)
+            # (a third of them at the very end or the very beginning of the text, where a text normalisation would act)
+            i = rng.choice([len(t), len(t), 0]) if rng.random() < 0.35 else rng.randrange(len(t) + 1)
             return t[:i] + rng.choice(CHARS) + t[i:]
         if r < 0.7:
             return t[:rng.randrange(len(t) + 1)]
